@@ -30,6 +30,7 @@ type env struct {
 	dns   *dns_naming.DNSHandler
 	lease string
 	pend  [][]byte // emitted frames not yet reported
+	cw    string   // caller-write class: the application overwrites every byte slice the library hands back ("" = none)
 	lazy  bool     // leave notifications queued in Session.C across packets (and scribbles)
 	slots []*slot  // one per step, filled when the channel is drained
 	given int      // notifications already attributed to a slot
@@ -90,9 +91,10 @@ func ipKey(a netip.Addr) string {
 // capacity per packet that is never touched again by the harness.
 // Returns the projected transcript (compared with the model) and the full transcript
 // (compared between the two runs).
-func runHistory(ops []op, shared bool, fill, stp byte, lazy bool) (string, string) {
+func runHistory(ops []op, shared bool, fill, stp byte, lazy bool, cw string) (string, string) {
 	e := newEnv()
 	e.lazy = lazy
+	e.cw = cw
 	defer e.close()
 	var buf []byte
 	if shared {
@@ -104,6 +106,7 @@ func runHistory(ops []op, shared bool, fill, stp byte, lazy bool) (string, strin
 		proj = append(proj, pj)
 		full = append(full, fl)
 	}
+	e.callerWritesGetters()
 	proj = append(proj, e.dump())
 	full = append(full, e.dumpFull())
 	e.flush()
@@ -132,6 +135,7 @@ func (e *env) flush() {
 			select {
 			case n := <-e.s.C:
 				sl.text += "N(" + showNotification(n) + ")"
+				e.callerWritesNotification(n)
 			default:
 				sl.text += "N(lost)"
 			}
@@ -151,6 +155,7 @@ func (e *env) apply(o *op, buf []byte, shared bool, fill, stp byte) (string, str
 	case 'u':
 		return e.outputs(e.hunt(o.keys[0]))
 	case 'q':
+		e.callerWritesGetters()
 		return e.dump(), e.dumpFull()
 	}
 	var p []byte
@@ -191,7 +196,21 @@ func (e *env) recv(p []byte, o *op) (async int, tag string) {
 		icmp_spoofer.VerifSetRepeat(3) // every router advertisement is processed
 		e.icmp6.ProcessPacket(frame)
 	case packet.PayloadDNS:
-		e.dns.ProcessDNS(frame)
+		ent, _ := e.dns.ProcessDNS(frame)
+		if e.cw == "dnsret" || e.cw == "all" {
+			bogus := netip.MustParseAddr("203.0.113.9")
+			for _, m := range []map[netip.Addr]packet.IPResourceRecord{ent.IP4Records, ent.IP6Records} {
+				if m != nil {
+					for k := range m {
+						delete(m, k)
+					}
+					m[bogus] = packet.IPResourceRecord{Name: "overwritten", IP: bogus}
+				}
+			}
+			if ent.CNameRecords != nil {
+				ent.CNameRecords["overwritten"] = packet.NameResourceRecord{Name: "overwritten", CName: "overwritten"}
+			}
+		}
 	case packet.PayloadMDNS, packet.PayloadLLMNR:
 		ipv4, ipv6, _ := e.dns.ProcessMDNS(frame)
 		for _, ent := range append(ipv4, ipv6...) {
@@ -206,6 +225,15 @@ func (e *env) recv(p []byte, o *op) (async int, tag string) {
 				h.UpdateMDNSName(ent.NameEntry)
 			} else {
 				h.UpdateLLMNRName(ent.NameEntry)
+			}
+		}
+		if e.cw == "mdnsret" || e.cw == "all" {
+			// the application owns what ProcessMDNS returned: it overwrites it
+			for _, l := range [][]packet.IPNameEntry{ipv4, ipv6} {
+				for i := range l {
+					flip(l[i].Addr.MAC)
+					l[i].NameEntry.Name, l[i].NameEntry.Model = "overwritten", "overwritten"
+				}
 			}
 		}
 	case packet.PayloadNBNS:
@@ -358,6 +386,7 @@ func (e *env) outputsCat(async int, cat byte) (string, string) {
 			select {
 			case n := <-e.s.C:
 				ns = append(ns, "N("+showNotification(n)+")")
+				e.callerWritesNotification(n)
 				continue
 			default:
 			}
@@ -712,3 +741,93 @@ func (e *env) dumpFull() string {
 	return e.dump() + " HF:" + strings.Join(hs, ",") + " MF:" + strings.Join(ms, ",") + " LF:" + strings.Join(ls, ",") +
 		" RF:" + strings.Join(rs, ",") + " DF:" + strings.Join(dn, ",") + " " + fl
 }
+
+// ---------------------------------------------------------------------------
+// caller writes: the application overwrites every byte slice it legitimately got back by value
+
+func flip(b []byte) {
+	for i := range b {
+		b[i] ^= 0xff
+	}
+}
+
+func (e *env) callerWritesNotification(n packet.Notification) {
+	if e.cw == "notif" || e.cw == "all" {
+		flip(n.Addr.MAC)
+	}
+}
+
+// callerWritesGetters calls the by-value getters and overwrites what they return.
+// (Pointers handed out by contract - *Host, *MACEntry, Frame.Host, the exported maps - are the tables
+// themselves and are not written.)
+func (e *env) callerWritesGetters() {
+	if e.cw == "" {
+		return
+	}
+	var macList [][]byte
+	for _, m := range e.s.MACTable.Table {
+		macList = append(macList, append([]byte{}, m.MAC...))
+	}
+	if e.cw == "findbymac" || e.cw == "all" {
+		for _, m := range macList {
+			for _, a := range e.s.FindByMAC(m) {
+				flip(a.MAC)
+			}
+		}
+	}
+	if e.cw == "ipaddrs" || e.cw == "all" {
+		for _, m := range macList {
+			for _, a := range e.s.IPAddrs(m) {
+				flip(a.MAC)
+			}
+		}
+	}
+	if e.cw == "findrouter" || e.cw == "all" {
+		e.icmp6.Lock()
+		var ips []netip.Addr
+		for ip := range e.icmp6.LANRouters {
+			ips = append(ips, ip)
+		}
+		e.icmp6.Unlock()
+		for _, ip := range ips {
+			r := e.icmp6.FindRouter(ip)
+			flip(r.Addr.MAC)
+			flip(r.Options.SourceLLA.MAC)
+			flip(r.Options.TargetLLA.MAC)
+			flip(r.Options.FirstPrefix)
+			flip(r.Options.RouteInformation.Prefix)
+			for _, p := range r.Options.Prefixes {
+				flip(p.Prefix)
+			}
+			for _, p := range r.Prefixes {
+				_ = p // the same slices as Options.Prefixes: flipped once
+			}
+			for _, a := range r.Options.RDNSS.Servers {
+				flip(a)
+			}
+			for i := range r.Options.DNSSearchList.DomainNames {
+				r.Options.DNSSearchList.DomainNames[i] = "overwritten"
+			}
+		}
+	}
+	if e.cw == "dnsfind" || e.cw == "all" {
+		e.icmp6.Lock()
+		e.icmp6.Unlock()
+		var names []string
+		for k := range e.dns.DNSTable {
+			names = append(names, k)
+		}
+		bogus := netip.MustParseAddr("203.0.113.9")
+		for _, k := range names {
+			ent := e.dns.DNSFind(k)
+			if ent.IP4Records != nil {
+				ent.IP4Records[bogus] = packet.IPResourceRecord{Name: "overwritten", IP: bogus}
+			}
+			if ent.PTRRecords != nil {
+				ent.PTRRecords["overwritten"] = packet.IPResourceRecord{Name: "overwritten", IP: bogus}
+			}
+		}
+	}
+}
+
+var cwClasses = []string{"notif", "findbymac", "ipaddrs", "findrouter", "mdnsret", "dnsret", "dnsfind"}
